@@ -4,8 +4,9 @@
 (* (Arbitration!Round, every processing order) satisfies the property-     *)
 (* level predicates RoundOK / DupOK in every reachable state, for every    *)
 (* limit setting of the cfg.  Universe: 2 nodes, 2 namespaces, 3 workloads *)
-(* (two of them share a namespace so that the namespace and workload       *)
-(* scopes differ), one job slot per pod (a pod never has two live jobs;    *)
+(* (two of them share a namespace so that the node, namespace, workload    *)
+(* and global scopes all differ), 4-5 pods, one job slot per pod (a pod    *)
+(* never has two live jobs;                                                *)
 (* finished / deleted jobs leave the table, so the slot is reused and the  *)
 (* number of rounds is unbounded).  Limits already exceeded before a round *)
 (* arise from jobs created in phase Running and from pods turning unready. *)
@@ -23,10 +24,12 @@ mcvars == <<vars, last>>
 AllPods == <<"p1", "p2", "p3", "p4", "p5">>
 Topo == [p \in {AllPods[i] : i \in 1..NPods} |->
            CASE p = "p1" -> [node |-> "n1", ns |-> "s1", wl |-> "w1", evictable |-> TRUE]
-             [] p = "p2" -> [node |-> "n1", ns |-> "s1", wl |-> "w1", evictable |-> TRUE]
-             [] p = "p3" -> [node |-> "n2", ns |-> "s1", wl |-> "w1", evictable |-> TRUE]
-             [] p = "p4" -> [node |-> "n2", ns |-> "s1", wl |-> "w2", evictable |-> TRUE]
+             [] p = "p2" -> [node |-> "n2", ns |-> "s1", wl |-> "w1", evictable |-> TRUE]
+             [] p = "p3" -> [node |-> "n1", ns |-> "s1", wl |-> "w2", evictable |-> TRUE]
+             [] p = "p4" -> [node |-> "n2", ns |-> "s2", wl |-> "w3", evictable |-> TRUE]
              [] p = "p5" -> [node |-> "n1", ns |-> "s2", wl |-> "w3", evictable |-> FALSE]]
+\* w1 and w2 each miss one replica; the expected-replicas rule forbids migrating w2 / w3 pods when a
+\* per-workload maximum of 2 is configured (replicas = maximum)
 WlTab == [w \in {"w1", "w2", "w3"} |->
            CASE w = "w1" -> [ns |-> "s1", replicas |-> 3]
              [] w = "w2" -> [ns |-> "s1", replicas |-> 2]
@@ -58,12 +61,14 @@ Purge == /\ ~NoGarbage
          /\ jobs' = [k \in {j \in DOMAIN jobs : jobs[j].phase \notin Terminal} |-> jobs[k]]
          /\ waiting' = {j \in waiting : jobs[j].phase \notin Terminal}
          /\ UNCHANGED <<pods, wls, lim, ready>>
-Env == /\ NoGarbage
-       /\ \/ \E p \in Pods, ph \in {"Pending", "Running"} : JobCreate(JobOf(p), p, ph)
-          \/ \E j \in DOMAIN jobs : JobStart(j) \/ JobDelete(j)       \* delete = complete / fail / abort + purge
-          \/ \E p \in ReadyPods \cap Pods, b \in BOOLEAN : PodSetReady(p, b)
-Next == \/ (NoGarbage /\ Round /\ last' = "round")
-        \/ ((Env \/ Purge) /\ last' = "other")
+Other(A) == NoGarbage /\ A /\ last' = "other"
+ARound   == NoGarbage /\ Round /\ last' = "round"
+ACreate  == Other(\E p \in Pods, ph \in {"Pending", "Running"} : JobCreate(JobOf(p), p, ph))
+AStart   == Other(\E j \in DOMAIN jobs : JobStart(j))
+ADelete  == Other(\E j \in DOMAIN jobs : JobDelete(j))      \* delete = complete / fail / abort, then purge
+AReady   == Other(\E p \in ReadyPods \cap Pods, b \in BOOLEAN : PodSetReady(p, b))
+APurge   == Purge /\ last' = "other"
+Next == ARound \/ ACreate \/ AStart \/ ADelete \/ AReady \/ APurge
 Spec == Init /\ [][Next]_mcvars
 
 \* the property, on every round step
